@@ -298,7 +298,34 @@ pub fn run(head: &str, steps: &str) -> Result<String, String> {
         links: Mutex::new(Vec::new()), v5, write_plan: Mutex::new(wplan), read_plan: Mutex::new(rplan),
         answer: get("answer").unwrap_or("1") != "0", refuse: Mutex::new(get("refuse").and_then(|x| x.parse().ok()).unwrap_or(0)),
     });
-    let client_options = gneiss_mqtt::verif::client_options_from_text(&format!("v={} policy={} pingto=30000 ctimeout=2000", if v5 { 5 } else { 311 }, get("policy").unwrap_or("all")))?;
+    let mut cb = MqttClientOptions::builder();
+    cb.with_protocol_mode(if v5 { ProtocolMode::Mqtt5 } else { ProtocolMode::Mqtt311 })
+        .with_offline_queue_policy(match get("policy").unwrap_or("all") {
+            "nothing" => OfflineQueuePolicy::PreserveNothing,
+            "acked" => OfflineQueuePolicy::PreserveAcknowledged,
+            "qos1plus" => OfflineQueuePolicy::PreserveQos1PlusPublishes,
+            _ => OfflineQueuePolicy::PreserveAll })
+        .with_ping_timeout(Duration::from_millis(30000))
+        .with_connect_timeout(Duration::from_millis(get("ctimeout").and_then(|x| x.parse().ok()).unwrap_or(2000)))
+        .with_reconnect_period_jitter(ExponentialBackoffJitterType::None)
+        .with_base_reconnect_period(Duration::from_millis(get("backoff").and_then(|x| x.parse().ok()).unwrap_or(20)))
+        .with_max_reconnect_period(Duration::from_millis(1000));
+    let client_options = cb.build();
+    // lifecycle events as the application sees them, interleaved with markers for the controller's own steps
+    let events: Arc<Mutex<Vec<String>>> = Arc::new(Mutex::new(Vec::new()));
+    let ev2 = events.clone();
+    let listener: ClientEventListener = Arc::new(move |ev: Arc<ClientEvent>| {
+        let name = match &*ev {
+            ClientEvent::ConnectionAttempt(_) => "Attempt".to_string(),
+            ClientEvent::ConnectionSuccess(_) => "Success".to_string(),
+            ClientEvent::ConnectionFailure(_) => "Failure".to_string(),
+            ClientEvent::Disconnection(_) => "Disconnection".to_string(),
+            ClientEvent::Stopped(_) => "Stopped".to_string(),
+            ClientEvent::PublishReceived(p) => format!("Publish.{}", hex(p.publish.payload().unwrap_or(&[]))),
+            _ => "Other".to_string(),
+        };
+        ev2.lock().unwrap().push(name);
+    });
     let mut cob = ConnectOptions::builder();
     cob.with_keep_alive_interval_seconds(None).with_client_id("drv").with_rejoin_session_policy(RejoinSessionPolicy::PostSuccess);
     let connect_options = cob.build();
@@ -317,6 +344,10 @@ pub fn run(head: &str, steps: &str) -> Result<String, String> {
         Handle::Threaded(client)
     };
 
+    match &handle {
+        Handle::Tokio(c, _) => { let _ = c.add_event_listener(listener.clone()); }
+        Handle::Threaded(c) => { let _ = c.add_event_listener(listener.clone()); }
+    }
     let slots: Arc<Mutex<Vec<Slot>>> = Arc::new(Mutex::new(Vec::new()));
     let sync_errors: Arc<Mutex<Vec<String>>> = Arc::new(Mutex::new(Vec::new()));
     let new_slot = |slots: &Arc<Mutex<Vec<Slot>>>| -> Slot {
@@ -353,9 +384,9 @@ pub fn run(head: &str, steps: &str) -> Result<String, String> {
     for step in steps.split(';').map(|s| s.trim()).filter(|s| !s.is_empty()) {
         let parts: Vec<&str> = step.split(':').collect();
         match parts[0] {
-            "start" => { let r = match &handle { Handle::Tokio(c, _) => c.start(None), Handle::Threaded(c) => c.start(None) }; if r.is_err() { sync_errors.lock().unwrap().push(format!("start:{}", error_name(&r))); } }
-            "stop" => { let r = match &handle { Handle::Tokio(c, _) => c.stop(None), Handle::Threaded(c) => c.stop(None) }; if r.is_err() { sync_errors.lock().unwrap().push(format!("stop:{}", error_name(&r))); } }
-            "close" => { let r = match &handle { Handle::Tokio(c, _) => c.close(), Handle::Threaded(c) => c.close() }; if r.is_err() { sync_errors.lock().unwrap().push(format!("close:{}", error_name(&r))); } }
+            "start" => { events.lock().unwrap().push("|start|".to_string()); let r = match &handle { Handle::Tokio(c, _) => c.start(None), Handle::Threaded(c) => c.start(None) }; if r.is_err() { sync_errors.lock().unwrap().push(format!("start:{}", error_name(&r))); } }
+            "stop" => { events.lock().unwrap().push("|stop|".to_string()); let r = match &handle { Handle::Tokio(c, _) => c.stop(None), Handle::Threaded(c) => c.stop(None) }; if r.is_err() { sync_errors.lock().unwrap().push(format!("stop:{}", error_name(&r))); } }
+            "close" => { events.lock().unwrap().push("|close|".to_string()); let r = match &handle { Handle::Tokio(c, _) => c.close(), Handle::Threaded(c) => c.close() }; if r.is_err() { sync_errors.lock().unwrap().push(format!("close:{}", error_name(&r))); } }
             "pub" | "pubcb" | "sub" | "unsub" => {
                 let tag = slots.lock().unwrap().len();
                 let size = parts.get(2).and_then(|x| x.parse().ok()).unwrap_or(0);
@@ -431,6 +462,17 @@ pub fn run(head: &str, steps: &str) -> Result<String, String> {
                     if let Some(w) = st.read_waker.take() { w.wake(); }
                 }
             }
+            "inject" => {
+                // the broker sends these bytes to the client
+                if let Some(l) = shared.current() {
+                    let mut st = l.0.lock().unwrap();
+                    let h = parts.get(1).copied().unwrap_or("").trim_start_matches('x');
+                    let bytes: Vec<u8> = (0..h.len() / 2).filter_map(|i| u8::from_str_radix(&h[2 * i..2 * i + 2], 16).ok()).collect();
+                    st.inbox.extend(bytes);
+                    if let Some(w) = st.read_waker.take() { w.wake(); }
+                }
+            }
+            "mark" => { events.lock().unwrap().push(format!("|{}|", parts.get(1).copied().unwrap_or("mark"))); }
             "sleep" => { std::thread::sleep(Duration::from_millis(parts.get(1).and_then(|x| x.parse().ok()).unwrap_or(1))); }
             "waitdone" => {
                 let limit: u64 = parts.get(1).and_then(|x| x.parse().ok()).unwrap_or(3000);
@@ -447,6 +489,7 @@ pub fn run(head: &str, steps: &str) -> Result<String, String> {
         let v = s.lock().unwrap();
         format!("{}:{}", i, if v.is_empty() { "unresolved".to_string() } else { v.join("+") })
     }).collect();
+    let event_list = events.lock().unwrap().join(",");
     // shut the client down so that its thread / tasks end
     match handle {
         Handle::Tokio(c, rt) => { let _ = c.close(); rt.shutdown_timeout(Duration::from_millis(200)); }
@@ -454,5 +497,5 @@ pub fn run(head: &str, steps: &str) -> Result<String, String> {
     }
     let wlogs: Vec<String> = shared.links.lock().unwrap().iter().map(|l| l.0.lock().unwrap().wlog.join("/")).collect();
     let reads: Vec<String> = shared.links.lock().unwrap().iter().map(|l| hex(&l.0.lock().unwrap().rlog)).collect();
-    Ok(format!("res=ok wires={} results={} sync={} notes={} calls={} reads={} wlog={}", wires.join(","), results.join(","), sync_errors.lock().unwrap().join(","), notes.join(","), calls.join(","), reads.join(","), wlogs.join(",")))
+    Ok(format!("res=ok wires={} results={} sync={} notes={} calls={} reads={} events={} wlog={}", wires.join(","), results.join(","), sync_errors.lock().unwrap().join(","), notes.join(","), calls.join(","), reads.join(","), event_list, wlogs.join(",")))
 }
